@@ -248,7 +248,21 @@ def skip_stmt(s):
         return True
     if isinstance(s, ast.Expr) and isinstance(s.value, ast.Constant):
         return True
+    # logging / warnings / print of values that are only READ (names, attributes, items, literals, f-strings)
+    if isinstance(s, ast.Expr) and isinstance(s.value, ast.Call):
+        c, f = s.value, s.value.func
+        log = (isinstance(f, ast.Attribute) and f.attr in LOG_METHODS
+               and u(f.value) in ("logging", "logger", "log", "_logger", "LOGGER", "self._log", "self._logger", "self.log",
+                                  "self.logger")
+               or u(f) in ("warnings.warn", "print"))
+        if log and all(isinstance(n, (ast.Constant, ast.JoinedStr, ast.FormattedValue, ast.Name, ast.Attribute,
+                                      ast.Subscript, ast.Load, ast.Tuple, ast.keyword))
+                       for a in list(c.args) + list(c.keywords) for n in ast.walk(a)):
+            return True
     return False
+
+
+LOG_METHODS = ("debug", "info", "warning", "error", "exception", "critical", "log")
 
 
 def assign_parts(s):
